@@ -155,7 +155,7 @@ def one(topology, faulty, fkind, req, index, remote):
         caller_loop = asyncio.new_event_loop(); asyncio.set_event_loop(caller_loop)
         w = mosaik.World(cfg, skip_greetings=True, asyncio_loop=caller_loop)
     else:
-        w = mosaik.World(cfg, skip_greetings=True)
+        w = mosaik.World(cfg, skip_greetings=True, debug=':debug' in fkind)      # (':debug': the execution-graph wrappers around step/get_outputs are active)
     res = dict(outcome=None)
     t0 = time.time(); t_fault = None
     def alarm(sig, frm): raise TimeoutError('run() did not terminate')
@@ -290,6 +290,12 @@ def cases(tier):
     for topology, faulty in (('free', 2), ('free', 0), ('pair', 1), ('chain', 2)):
         for fk, req, index in (('raise:held', 'step', 1), ('raise:held', 'step', 2), ('raise:plain:held:RuntimeError', 'step', 1), ('raise:held@3', 'step', 1)):
             out.append((topology, faulty, fk, req, index, False))
+    # the same failures in a World(debug=True): the debug wrappers around the step must let the failure (and the cancellation
+    # of the suspended survivors) through
+    for topology, faulty, fk, req, index in (('pair', 0, 'raise:debug', 'step', 1), ('chain', 1, 'raise:debug', 'step', 0), ('pair', 0, 'raise:debug', 'get_data', 0),
+                                             ('pair', 1, 'raise:plain:debug:ValueError', 'step', 1), ('free', 2, 'raise:held:debug', 'step', 1), ('pair', 1, 'raise:held:debug', 'step', 2),
+                                             ('chain', 0, 'raise:held:debug', 'get_data', 0)):
+        out.append((topology, faulty, fk, req, index, False))
     # the moment of the failure swept over event-loop iterations: an unconnected simulator fails k iterations into its
     # step while a triggered simulator is being woken / waits for its next step to settle
     for index in ((1, 2) if tier == 'quick' else (0, 1, 2, 3)):
@@ -332,7 +338,7 @@ def run(out, info, tier, seed):
     out.coverage = {'evaluations': n_eval, 'distinct_nontrivial': nontriv,
                     'rule': 'topologies pair (A->B) and chain (A->B->C) x failing simulator x request (setup_done, step #0/#1/#3, get_data #0/#2) x fault kind '
                             '(exception in handler: RuntimeError / StopIteration / KeyError / ValueError raised by generator-style and by plain handlers, also by a simulator announcing API 2.2 behind the version adapters; for subprocess simulators also os._exit) x transport of the failing simulator (in-process / subprocess; thorough: all combinations); '
-                            'plus the moment of the failure swept over 14 (thorough: 30) event-loop iterations for an unconnected failing simulator next to a triggered simulator that waits for its next step to settle; '
+                            'the same failures in a World(debug=True); plus the moment of the failure swept over 14 (thorough: 30) event-loop iterations for an unconnected failing simulator next to a triggered simulator that waits for its next step to settle; '
                             'non-trivial = fault during the stepping phase',
                     'samples': samples, 'outcome_histogram': dict(hist), 'monitor_failures': len(violations), 'zombie_children': zombies}
 
